@@ -10,7 +10,7 @@ from . import base
 TRUSTED_BASE = base.TRUSTED_BASE + ['copy.deepcopy copies deeply and np.array(list) copies (the model allocates fresh cells for them)']
 ASSUMPTIONS = base.ASSUMPTIONS + ['routes are exactly those listed in the statement; copy() (documented shallow), .T and flatten()/ravel() are not among them',
                                   'indexing views are exercised on 2-D objects (x[i] is a row view; 1-D integer indexing returns a copy of the element)']
-RULE = ('HEAP lines: random histories (<=14 steps) that create objects, derive new ones by like=, deepcopy, like(), conversion, +, np.add, ~, >> (trunc/keep), row indexing, strided / reversed slicing, column indexing (also of views), and then mutate one (whole write, indexed write, config change, flag-raising write, reset); '
+RULE = ('HEAP lines: random histories (<=14 steps) that create objects, derive new ones by like=, deepcopy (also flatten() and .T of 1-D objects), like(), conversion, +, np.add, ~, >> (trunc/keep), row indexing, strided / reversed slicing, column indexing (also of views), and then mutate one (whole write, indexed write, config change, flag-raising write, reset); '
         'after every step the observable state (format, codes, config, flags) of ALL live objects and the real sharing graph (config/status identity, np.shares_memory) are compared with the model. '
         'INP lines: lists / nested lists / tuples / arrays of numbers and of bin/hex strings are deep-compared before and after construction (constructor, call, set_val; from_bin as function and method for unprefixed binary strings). BCF lines: every Config field x invalid values through the setter, Fxp kwargs and Config(). '
         'non-trivial = a history with at least one derivation followed by a mutation')
@@ -62,7 +62,14 @@ def exec_HEAP(t):
             elif k == 'K':
                 add(p[1], Fxp(like=objs[p[2]]))
             elif k == 'C':
-                add(p[1], copy.deepcopy(objs[p[2]]) if len(order) % 2 else objs[p[2]].deepcopy())
+                src = objs[p[2]]
+                how = (len(order) + len(p[1]) + ord(p[2][0])) % 4
+                if src.ndim == 1 and how == 2:
+                    add(p[1], src.flatten())          # "a copy of the Fxp" (1-D: same shape)
+                elif src.ndim == 1 and how == 3:
+                    add(p[1], src.T)                  # transpose of a 1-D object: an independent object with the same codes
+                else:
+                    add(p[1], copy.deepcopy(src) if how % 2 else src.deepcopy())
             elif k == 'L':
                 add(p[1], objs[p[2]].like(objs[p[3]]))
             elif k == 'V':
